@@ -52,11 +52,17 @@ class Script:
         self.steps = []          # dict(op, h, d (str or callable(prev harness responses) -> str), kind, meta)
         self.contents = {}       # sha256 -> bytes
         self.live = None
+        self.hook_before = None
+        self.hook_after = None
 
     def add(self, op, h, d=None, kind="mut", **meta):
         st = dict(op=op, h=h, d=d if d is not None else h, kind=kind, meta=meta)
         if self.live is not None:
+            if self.hook_before:
+                self.hook_before(st)
             st["hres"] = self.live.ask(h)
+            if self.hook_after:
+                self.hook_after(st, st["hres"])
         self.steps.append(st)
         return st.get("hres")
 
@@ -81,17 +87,19 @@ def keep_from_manifest(resp, head_prefix_hint=None):
 
 
 class Gen:
-    def __init__(self, rng, n_ops=14, n_objects=2, layouts=None, hostile_ids=False, profile="general", live=None):
+    def __init__(self, rng, n_ops=14, n_objects=2, layouts=None, hostile_ids=False, profile="general", live=None,
+                 two_clients=False):
         self.rng = rng
         self.sc = Script()
         self.sc.live = live
         self.known = {}         # id -> (files, dirs) of the staged view last observed
+        self.two_clients = two_clients
         self.n_ops = n_ops
         self.profile = profile
         lay = rng.choice(layouts or LAYOUTS[:2] + LAYOUTS[:1] * 2 + LAYOUTS)
         self.layout = lay
         self.spec = rng.choice(["1.0", "1.1"])
-        self.staging = rng.choice(["default", "default", "ext"])
+        self.staging = "ext" if two_clients else rng.choice(["default", "default", "ext"])
         self.ids = []
         self.objs = {}          # id -> dict(alg, committed: bool guess)
         self.n_objects = n_objects
@@ -188,6 +196,8 @@ class Gen:
             self.observe_staged(oid)
             return
         oid = rng.choice(self.ids)
+        if self.two_clients and rng.random() < 0.35:
+            sc.add("client", "client %d" % rng.randint(0, 1), kind="skipd")
         op = rng.choices(["cpx", "mvx", "cpi", "mvi", "rm", "resetp", "resetall", "commit", "purge", "upgrade", "new"],
                          [30, 8, 16, 14, 10, 8, 2, 16, 1, 2, 1])[0]
         if op == "cpx":
@@ -226,7 +236,7 @@ class Gen:
 
             def d(hres, i, oid=oid, created=created):
                 keep = keep_from_manifest(hres[i + 1]) if hres[i].startswith("ok") else "default"
-                return "upgrade %s 1.1 %s - %s %s %s" % (hx(oid), hx("me"), hx("upgrade"), created, keep)
+                return "upgrade %s 1.1 %d %s - %s %s %s" % (hx(oid), 0 if self.layout[0] == "none" else 1, hx("me"), hx("upgrade"), created, keep)
             sc.add("upgrade", h, d, kind="mut", id=oid)
             sc.add("manifest", "manifest %s" % hx(oid), kind="manifest", id=oid)
             self.observe_main(oid)
@@ -244,7 +254,29 @@ class Gen:
         if rng.random() < 0.1:
             sc.add("open", "open", "heads %s" % hx(oid), kind="skip")
 
+    def install_hooks(self):
+        ctx, oracles = getattr(self, "ctx", None), getattr(self, "oracles", None)
+        if ctx is None:
+            return
+        self.fails = []
+
+        def before(st):
+            if st["op"] == "reset":
+                return
+            for o in oracles:
+                o.before(ctx, st)
+
+        def after(st, resp):
+            if st["op"] == "reset":
+                ctx.n += 1
+                return
+            for o in oracles:
+                for f in o.after(ctx, st, resp) or []:
+                    self.fails.append((len(self.sc.steps), o.name, f))
+        self.sc.hook_before, self.sc.hook_after = before, after
+
     def build(self):
+        self.install_hooks()
         self.setup()
         for _ in range(self.n_ops):
             self.step()
@@ -315,7 +347,7 @@ def outcome(resp):
 
 def compare_step(step, h, d, contents, alg_of):
     kind = step["kind"]
-    if kind in ("setup", "skip"):
+    if kind in ("setup", "skip", "skipd"):
         return True, ""
     if kind == "nondet":
         return True, ""
